@@ -37,7 +37,29 @@ pub fn make_archive_with(ctx: &mut Ctx, max_len: usize, big: bool, force_writer:
     }
     tweak(&mut spec);
     let max_len = if spec.comp.expensive() { max_len.min(spec.cfg.expected_avg().saturating_mul(24).max(64)) } else { max_len };
-    let (sspec, data) = gen::gen_source(&spec.cfg, max_len);
+    let (mut sspec, mut data) = gen::gen_source(&spec.cfg, max_len);
+    // the stored-size == source-size corner of the compression rule: fixed-size chunks crafted
+    // so that their compressed form has exactly the chunk's size
+    if spec.cfg.algo == gen::Algo::Fixed && spec.comp != gen::Comp::None && !spec.comp.expensive() && (16..=4096).contains(&spec.cfg.max) && gen::chance(1, 4) {
+        let k = 1 + gen::draw(4) as usize;
+        let mut v = Vec::new();
+        let mut hits = 0;
+        for _ in 0..k {
+            match gen::equal_size_chunk(spec.cfg.max, spec.comp, gen::t(|t| t.seed64())) {
+                Some(c) => {
+                    v.extend_from_slice(&c);
+                    hits += 1;
+                }
+                None => v.extend(std::iter::repeat(7u8).take(spec.cfg.max)),
+            }
+        }
+        if hits > 0 {
+            simkit::count("probe:stored-size-equals-source-size");
+            sspec.kind = "equal-size-corner";
+            sspec.len = v.len();
+            data = v;
+        }
+    }
     let source = Arc::new(data);
     let (wname, outcome, archive, sched, short) = compress_with(&spec, &source, writer);
     let desc = json!({"writer": wname, "options": spec.json(), "source": sspec.json(), "schedule": sched, "short_read_pct": short});
@@ -84,7 +106,7 @@ pub fn compress_with(spec: &scen::CompressSpec, source: &Arc<Vec<u8>>, writer: u
 }
 
 pub fn run(ctx: &mut Ctx) {
-    let big = ctx.tier == Tier::Thorough && gen::chance(1, 30);
+    let big = gen::chance(1, if ctx.tier == crate::harness::Tier::Thorough { 30 } else { 400 });
     let max_len = if big { 5 << 20 } else { 128 * 1024 };
     let Some(m) = make_archive(ctx, max_len, big, None) else { return };
     let source = &m.source;
@@ -154,6 +176,12 @@ pub fn run(ctx: &mut Ctx) {
         return;
     }
     if out != **source {
+        if m.spec.hash_len < 8 && crate::props::clonefam::truncated_twins(&ra) {
+            // two different chunks of the source share their truncated hash: the user's choice
+            // of hash length, no reader can reconstruct this (DESIGN.md, C02 note)
+            simkit::count("hash-collision-exempt");
+            return;
+        }
         ctx.fail("output-differs", format!("{} clone output differs from the source at byte {:?}: {} vs {}; written by {}; {}", cname, gen::first_diff(&out, source), gen::fp(&out), gen::fp(source), m.writer, m.desc));
         return;
     }
